@@ -40,4 +40,7 @@ Offered == {d \in Range1(E.all) : d.k \in Kinds}
 Expected == Neighbours(NetE, Abs(Rec[E.bi].S), SegLimit, Overhead)
 P_C11_complete == IsEnum => Expected \subseteq Offered
 P_C11_sound == IsEnum => Offered \subseteq Expected
+\* coverage report (always true): the branch every validated candidate took, the size of every neighbourhood
+Cov == /\ (IsCand /\ E.sw.k \in Kinds) => PrintT(<<"COV", SwapBranch(NetE, Abs(Rec[E.bi].S), E.sw)>>)
+       /\ IsEnum => PrintT(<<"NBH", Cardinality(Offered)>>)
 =============================================================================
